@@ -1156,3 +1156,29 @@ def _intern_as_ref(m, c):
 @model("must_use", "hint::must_use", "convert::identity", "identity", "hint::black_box")
 def _identity(m, c):
     return c.args[0]
+
+
+# ------------------------------------------------------------------ vec![..] lowering of newer rustc
+@model("Box::new_uninit")
+def _box_new_uninit(m, c):
+    cell = Cell(None)
+    return Struct("BoxUninit", [Tup([Ref(cell, (), True)])])
+
+
+@model("box_assume_init_into_vec_unsafe", "boxed::box_assume_init_into_vec_unsafe")
+def _box_into_vec(m, c):
+    b = c.args[0]
+    cell = b.fields[0].fields[0].cell
+    v = cell.v
+    # MaybeUninit { uninit: (), value: ManuallyDrop(MaybeDangling([T; N])) }  -> the array
+    while isinstance(v, Tup):
+        nxt = [x for x in v.fields if x is not None]
+        if not nxt:
+            raise Unsupported("uninitialised vec! box")
+        v = nxt[-1]
+    return Seq(v.items, v.ety)
+
+
+@model("Box::assume_init", "Box::write")
+def _box_assume_init(m, c):
+    raise Unsupported("Box::assume_init")
